@@ -20,6 +20,9 @@ HELPER_CASES = [
     (("x = '''a\nb\nc''' + 1\n", (3, 4), (5, 4)), [(3, "x = '''a\n"), (4, "b\n"), (5, "c''' + 1\n")]),
     (("x = 1\n", (7, 0), (7, 1)), [(7, "x = 1\n")]),
     (("last", (2, 0), (2, 4)), [(2, "last")]),
+    # form feeds and other str.splitlines separators are ordinary characters of a line
+    (("a = 1 \x0c# page\n", (6, 0), (6, 1)), [(6, "a = 1 \x0c# page\n")]),
+    (("s = \'\'\'a\x0c\nb\x0bc\nd\'\'\'\n", (3, 4), (5, 4)), [(3, "s = \'\'\'a\x0c\n"), (4, "b\x0bc\n"), (5, "d\'\'\'\n")]),
     (("", (9, 0), (9, 0)), []),
     # `line` not aligned with the span (synthetic tokens): only the first line is trusted
     (("f!(a +\n", (1, 3), (2, 3)), [(1, "f!(a +\n")]),
@@ -28,10 +31,22 @@ HELPER_CASES = [
 
 
 def find_helper(ix: Index) -> Optional[str]:
-    for q, f in ix.funcs.items():
-        if f.cls == "Tokenizer" and any(isinstance(n, ast.Attribute) and n.attr == "splitlines" for n in ast.walk(f.node)) \
-                and len(f.node.args.args) <= 2 and any(isinstance(n, ast.Return) for n in ast.walk(f.node)):
-            return q
+    """The Tokenizer method whose result the line-cache fill in `peek` iterates as (number, text) pairs."""
+    pk = ix.funcs.get("Tokenizer.peek")
+    if pk is None:
+        return None
+    defs: dict[str, list[ast.expr]] = {}
+    for n in own_nodes(pk.node):
+        if isinstance(n, ast.Assign) and len(n.targets) == 1 and isinstance(n.targets[0], ast.Name):
+            defs.setdefault(n.targets[0].id, []).append(n.value)
+    for n in own_nodes(pk.node):
+        if isinstance(n, ast.For) and isinstance(n.target, ast.Tuple) and len(n.target.elts) == 2:
+            it = n.iter
+            if isinstance(it, ast.Name) and len(defs.get(it.id, [])) == 1:
+                it = defs[it.id][0]
+            if isinstance(it, ast.Call) and isinstance(it.func, ast.Attribute) and norm_stmt(it.func.value) in ("self", "Tokenizer", "type(self)") \
+                    and f"Tokenizer.{it.func.attr}" in ix.funcs:
+                return f"Tokenizer.{it.func.attr}"
     return None
 
 
